@@ -337,6 +337,20 @@ func TestVarintBytes(t *testing.T) {
 		if n != len(enc)-len(prefix) || !bytes.Equal(back, payload) {
 			t.Fatalf("SIG=C19/varbytes-roundtrip got (%x,%d)", back, n)
 		}
+		// ... and, for payloads of 64 bytes and more, right afterwards payloads whose lengths are congruent to this one modulo
+		// 2^8, 2^16 (anything remembered per length must remember the whole length)
+		if len(payload) >= 64 {
+			for _, add := range []int{256, 65536, 131072} {
+				p2 := make([]byte, len(payload)+add)
+				copy(p2, payload)
+				enc2 := quicwire.AppendVarintBytes(nil, p2)
+				hd := ref.VarintEncode(uint64(len(p2)))
+				if len(enc2) != len(hd)+len(p2) || !bytes.Equal(enc2[:len(hd)], hd) || !bytes.Equal(enc2[len(hd):], p2) {
+					t.Fatalf("SIG=C19/varbytes-append AppendVarintBytes of %d bytes right after one of %d bytes: %d bytes starting %x, want %d bytes starting %x", len(p2), len(payload), len(enc2), enc2[:8], len(hd)+len(p2), hd)
+				}
+				s.Eval()
+			}
+		}
 		s.Sample(func() any { return map[string]any{"declared": declared, "remaining": rem, "hdr": rt.Hex(hdr)} })
 	})
 }
